@@ -75,6 +75,7 @@ def convert(tb, hook_events, sid, cfg, kind, stats, mon=True):
     pending_frame = None      # (idx, asserted ids)
     gives = {}                # frame id -> roots (accumulated over re-processing of the frame)
     inserted = {}             # frame id -> formulas as asserted (before ITE elimination), None where unreadable
+    main_ms = [None]          # the MainSolver instance that executes the script
     idx2id = {}
     def flush_frame():
         nonlocal pending_frame
@@ -146,7 +147,9 @@ def convert(tb, hook_events, sid, cfg, kind, stats, mon=True):
                 out.append({"e": "farkas", "lits": lits, "coefs": [{"n": c.numerator, "d": c.denominator} for c in coefs],
                             "mon": bool(ok)})
             elif e == "insert":
-                if "t" in ev:
+                if main_ms[0] is None:
+                    main_ms[0] = ev.get("ms")
+                if "t" in ev and ev.get("ms") == main_ms[0]:
                     try:
                         inserted.setdefault(ev["fid"], []).append(rd.read(ev["t"]))
                     except SmtError:
@@ -206,6 +209,8 @@ def b_engine(job):
         for c in cls[half:]:
             body.append({"c": "assert", "t": c, "nm": "", "inner": []})
         body.append({"c": "check-sat"})
+    elif mode == "dlgraph":
+        body = G.dlgraph_history(g, rng)
     elif mode == "unsatbiased":
         body = B.unsat_biased_body(g, rng, p_named=0.0, nested=False, n_named=job.get("n", 6), n_atoms=job.get("n_atoms", 4),
                                    histories=job.get("histories", True))
